@@ -157,7 +157,7 @@ func getParentMethodT(
 
 	classNode := ClassNode{Frame: frame, Class: class}
 
-	for _, parentNode := range ClassInheritanceMap[classNode] {
+	for _, parentNode := range parentNodes(classNode) {
 		var methodT *T
 		var ok bool
 
@@ -454,7 +454,7 @@ func setParentValueT(
 
 	classNode := ClassNode{Frame: frame, Class: class}
 
-	for _, parentNode := range ClassInheritanceMap[classNode] {
+	for _, parentNode := range parentNodes(classNode) {
 		_, ok :=
 			TFrame[valueTFrameKey(
 				parentNode.Frame,
@@ -540,7 +540,7 @@ func getParentValueT(
 
 	classNode := ClassNode{Frame: frame, Class: class}
 
-	for _, parentNode := range ClassInheritanceMap[classNode] {
+	for _, parentNode := range parentNodes(classNode) {
 		t, ok :=
 			TFrame[valueTFrameKey(
 				parentNode.Frame,
